@@ -21,13 +21,13 @@ CHECKS = {
 
 CHECKS["C19"] = dict(
     technique="static analysis: whole-package global-write scan (who-may-write inventory), lock-coverage lint of PEP 562 hooks, publish-after-build reachability on a hand-built CFG, import-introspection inventory of shared instances",
-    text="The complete set of functions that write process-wide state (module globals, class attributes, globals()) is computed from the source and must equal the reviewed inventory; every lazy import/publish is under a module-level RLock; no object is mutated after being stored into shared state on any CFG path; cache builders are effect-free; no shared Parser/Generator/Tokenizer instance exists. No module- or class-level instance of a package class that keeps per-call state on itself may exist, and no module in the import closure of a locked lazy hook's target modules may resolve a lazy attribute through that hook (it would take the package lock and importlib's module lock in the opposite order to the hook — a first-use deadlock). This is the publication/lock discipline that makes first-use races benign; schedules are not executed.",
+    text="The complete set of functions that write process-wide state (module globals, class attributes, globals()) is computed from the source and must equal the reviewed inventory; every lazy import/publish is under a module-level RLock; no object is mutated after being stored into shared state on any CFG path; cache builders are effect-free; no shared Parser/Generator/Tokenizer instance exists. No module- or class-level instance of a package class that keeps per-call state on itself may exist, and no module in the import closure of a locked lazy hook's target modules may resolve a lazy attribute through that hook (it would take the package lock and importlib's module lock in the opposite order to the hook — a first-use deadlock). This is the publication/lock discipline that makes first-use races benign; schedules are not executed. No public entry point sets a process-global switch (closed list of setters with a positive control), and memoised factories never return worker objects or instances of stateful classes.",
     ref="DESIGN.md section 4 / C19",
 )
 
 CHECKS["C18"] = dict(
     technique="static analysis: memo discovery by pattern, transitive field-read sets, in-place-helper mutation summaries, write=>invalidate forward dataflow on the writer's CFG, def-use memo-key completeness",
-    text="For every dict memo of MappingSchema (discovered from the source) the fields its fill function reads are computed transitively; every method that writes such a field (directly or through an in-place helper such as nested_set/new_trie) must fully invalidate the memo on every CFG path to the return, keyed eviction being rejected while the fill resolves partial names; every parameter read by a memoised computation must be in the lookup key; None is never served as a hit. Lookups must be read-only on the registered state: outside the registration methods nothing stores into or mutates a value obtained from self.mapping / find() / nested_get() (taint from registered state to item stores and mutator calls). This is the coherence discipline on which 'answers as a fresh schema would' rests; trie arithmetic is not evaluated.",
+    text="For every dict memo of MappingSchema (discovered from the source) the fields its fill function reads are computed transitively; every method that writes such a field (directly or through an in-place helper such as nested_set/new_trie) must fully invalidate the memo on every CFG path to the return, keyed eviction being rejected while the fill resolves partial names; every parameter read by a memoised computation must be in the lookup key; None is never served as a hit. Lookups must be read-only on the registered state: outside the registration methods nothing stores into or mutates a value obtained from self.mapping / find() / nested_get() (taint from registered state to item stores and mutator calls). This is the coherence discipline on which 'answers as a fresh schema would' rests; trie arithmetic is not evaluated. The constructor path normalises every table-path part with is_table=True exactly as the lookup path does.",
     ref="DESIGN.md section 4 / C18",
 )
 
@@ -57,18 +57,18 @@ CHECKS["C12"] = dict(
 
 CHECKS["C13"] = dict(
     technique="static analysis: symbolic (linear normal form) check of the scanner's cursor invariant on every block that writes the offset, keyword/field agreement of the token stamp, inclusive-end convention lint at every consumer",
-    text="The tokenizer keeps _char/_peek/_end/_col consistent with _current by hand in three places (_advance, its alnum batch, the str.find string fast path); each block that writes _current must re-establish the three equalities with symbolically equal expressions and move the column in lockstep, so an off-by-one in a fast path is caught without running it. The string fast path must count exactly the line breaks _advance counts (count-term vector incl. CR LF pairing) and restart the column after the last of them. Token stamps, every slice/adjacency/highlight consumer of the inclusive end, TokenError's own slice and same-token error reporting are shape-checked. Tiling of the input by tokens is not decided.",
+    text="The tokenizer keeps _char/_peek/_end/_col consistent with _current by hand in three places (_advance, its alnum batch, the str.find string fast path); each block that writes _current must re-establish the three equalities with symbolically equal expressions and move the column in lockstep, so an off-by-one in a fast path is caught without running it. The string fast path must count exactly the line breaks _advance counts (count-term vector incl. CR LF pairing) and restart the column after the last of them. Token stamps, every slice/adjacency/highlight consumer of the inclusive end, TokenError's own slice and same-token error reporting are shape-checked. Tiling of the input by tokens is not decided. The window slice feeding the lookahead clamps its lower bound; the i>1 branch of _advance counts the line breaks it skips; self._prev/_curr is never read as an argument after a sibling argument moved the cursor; a variable-length rewind restores _line/_col; after a nested _scan the enclosing method re-assigns _start before emitting its own token.",
     ref="DESIGN.md section 4 / C13",
 )
 
 CHECKS["C10"] = dict(
     technique="static analysis: typestate of the straight-line qualify() pipeline (stage order, threading, guards, defaults) and error-family resolution of every raise in the qualification modules",
-    text="A thin, exact necessary condition: qualify() must run normalize_identifiers, qualify_tables, [isolate_table_selects], qualify_columns, quote_identifiers, validate in that order on one threaded variable, each optional stage behind its own flag with the documented defaults and the resolved dialect/schema passed on; every explicit raise in the qualification modules must be a SqlglotError subclass. Completeness, idempotence, star order and case rules are run-time valued and are NOT decided by this check. Scope.branch must give the inner scope's CTE definitions precedence over inherited ones (closed set of merge forms; an unrecognised form is reported as not decided).",
+    text="A thin, exact necessary condition: qualify() must run normalize_identifiers, qualify_tables, [isolate_table_selects], qualify_columns, quote_identifiers, validate in that order on one threaded variable, each optional stage behind its own flag with the documented defaults and the resolved dialect/schema passed on; every explicit raise in the qualification modules must be a SqlglotError subclass. Completeness, idempotence, star order and case rules are run-time valued and are NOT decided by this check. Scope.branch must give the inner scope's CTE definitions precedence over inherited ones (closed set of merge forms; an unrecognised form is reported as not decided). Case folding consults the dialect's ASCII-only flag, no id() of a str is used as identity, and every Dialect-level setting overridden by some dialect is read somewhere.",
     ref="DESIGN.md section 4 / C10",
 )
 CHECKS["C07"] = dict(
     technique="static analysis: pairing/post-domination of the line-break sentinel, injectivity of the substitution, flow confinement of comment text to maybe_comment, block-comment-only emission lint",
-    text="Decides the two explicit clauses of C07 that are structural: pretty output cannot contain the sentinel and plain output cannot be altered by it (single guarded insertion/removal pair, removal before every return, overrides delegate), and comments=False emits no comment text / comments cannot swallow SQL (comment text flows only into maybe_comment, which short-circuits on self.comments; only block comments, sanitised on both markers). In the emitters of text-bearing leaves (literal, identifier, raw/unicode/byte/national string) the text wrapped in quote delimiters must have passed _replace_line_breaks on every path (must-dataflow), so pretty printing never pads the continuation lines of a literal. The separators Generator.indent splits on must all be hidden by _replace_line_breaks (regex AST of the separator compared with the replaced constants). One genuine defect (sentinel collision with user text under pretty) is recorded as a known finding. Whether pretty/pad/indent/leading_comma/max_text_width affect whitespace only is semantic and not decided.",
+    text="Decides the two explicit clauses of C07 that are structural: pretty output cannot contain the sentinel and plain output cannot be altered by it (single guarded insertion/removal pair, removal before every return, overrides delegate), and comments=False emits no comment text / comments cannot swallow SQL (comment text flows only into maybe_comment, which short-circuits on self.comments; only block comments, sanitised on both markers). In the emitters of text-bearing leaves (literal, identifier, raw/unicode/byte/national string) the text wrapped in quote delimiters must have passed _replace_line_breaks on every path (must-dataflow), so pretty printing never pads the continuation lines of a literal. The separators Generator.indent splits on must all be hidden by _replace_line_breaks (regex AST of the separator compared with the replaced constants). One genuine defect (sentinel collision with user text under pretty) is recorded as a known finding. Whether pretty/pad/indent/leading_comma/max_text_width affect whitespace only is semantic and not decided. (Typed) no f-string in generator code interpolates an expression node itself instead of its rendered SQL.",
     ref="DESIGN.md section 4 / C07",
 )
 
@@ -80,13 +80,13 @@ CHECKS["C04"] = dict(
 
 CHECKS["C01"] = dict(
     technique="static analysis: exhaustiveness of generator dispatch over the classes each dialect's parser chain constructs (AST + import-introspected dispatch tables), fixpoint closure of operator and time-format tables across tokenizer/parser/generator",
-    text="For all 34 SQL dialect classes: every expression class the dialect's parser chain can construct must be printable by the same dialect's generator (16k class-dialect pairs); every table-driven binary operator printed by self.binary(e, OP) must tokenize and re-parse to the same class (base) or to a class printed identically (500+ obligations); the effective time/format mapping tables must be idempotent on the generator's image (900+ entries). These are necessary conditions of the round-trip fixpoint visible in tables; precedence, nesting and bespoke parse/print pairs are run-time valued and NOT decided.",
+    text="For all 34 SQL dialect classes: every expression class the dialect's parser chain can construct must be printable by the same dialect's generator (16k class-dialect pairs); every table-driven binary operator printed by self.binary(e, OP) must tokenize and re-parse to the same class (base) or to a class printed identically (500+ obligations); the effective time/format mapping tables must be idempotent on the generator's image (900+ entries). These are necessary conditions of the round-trip fixpoint visible in tables; precedence, nesting and bespoke parse/print pairs are run-time valued and NOT decided. Every Parser/Generator/Tokenizer setting that a dialect overrides must be read somewhere (a dead setting means the dialect's reader and writer silently stopped agreeing).",
     ref="DESIGN.md section 4 / C01",
 )
 
 CHECKS["C05"] = dict(
     technique="static analysis: loop-progress dataflow with interprocedural 'productive' summaries (greatest fixpoint over all parser classes) on a hand-built CFG; provenance/consumption analysis of cursor moves; must-dataflow dominance for table lookups; raise-family lint, length-bound and token-existence dataflows, typed definite-assignment lint",
-    text="Every while loop of the recursive-descent parser (all 34 parser classes) and of the tokenizer must reach each back edge having consumed a token (consuming-match conditions, unconditional advances, peek-then-parse, explicit progress checks, productive callees derived by a fixpoint) or be a recognised non-cursor loop; every backward cursor move must target a saved index or be covered by consumption/dispatch credit; every class-table lookup must be dominated by a successful match on the same table; the generator's fall-through and every explicit raise must stay inside the library's error family; constant indexing of function-builder argument lists and of every list-typed local/attribute of the parser, tokenizer and JSON-path parser needs a dominating length fact (length-bound dataflow, one-level caller facts for list parameters); every forward _advance needs evidence that the token it steps over exists; callees that un-read their caller's match are charged back to the caller's loop; locals are definitely assigned (mypy possibly-undefined); cursor-relative subscripts of the token list carry a bound test; no generator handler renders the same child twice in one execution (2^depth work); the scanner runs only under the TokenError wrapper. This found and led to fixes for five parser hangs, a cursor restored one token too far and seven IndexError/UnboundLocalError leaks. None-dereferences, work bounds and recursion depth are not decided.",
+    text="Every while loop of the recursive-descent parser (all 34 parser classes) and of the tokenizer must reach each back edge having consumed a token (consuming-match conditions, unconditional advances, peek-then-parse, explicit progress checks, productive callees derived by a fixpoint) or be a recognised non-cursor loop; every backward cursor move must target a saved index or be covered by consumption/dispatch credit; every class-table lookup must be dominated by a successful match on the same table; the generator's fall-through and every explicit raise must stay inside the library's error family; constant indexing of function-builder argument lists and of every list-typed local/attribute of the parser, tokenizer and JSON-path parser needs a dominating length fact (length-bound dataflow, one-level caller facts for list parameters); every forward _advance needs evidence that the token it steps over exists; callees that un-read their caller's match are charged back to the caller's loop; locals are definitely assigned (mypy possibly-undefined); cursor-relative subscripts of the token list carry a bound test; no generator handler renders the same child twice in one execution (2^depth work); the scanner runs only under the TokenError wrapper. This found and led to fixes for five parser hangs, a cursor restored one token too far and seven IndexError/UnboundLocalError leaks. None-dereferences, work bounds and recursion depth are not decided. _advance_chunk advances are bounded by the chunk, and enum lookups by computed name are guarded.",
     ref="DESIGN.md section 4 / C05",
 )
 
